@@ -64,7 +64,7 @@ func nxConfigs(part string, thorough bool) []*nxCfg {
 			{Name: "pool-stop-during-snapshot", N: 3, RealPool: true, SnapshotEntries: 2, MaxDev: pick(2, 3), Prefix: nxWarm,
 				Script: []string{"W1", "W2", "W1", "H1", "W2", "S2", "W1", "S1"}, HoldJobs: 1, Stops: 1, Crashes: 1, LazyApplies: 1, Horizon: 250},
 			{Name: "pool-restart-from-snapshot", N: 3, RealPool: true, SnapshotEntries: 2, MaxDev: pick(2, 3), Prefix: nxWarm,
-				Script: []string{"W1", "W2", "W1", "H1", "C2", "W2", "H1", "C1", "T2", "H2", "W3", "H2"}, HoldJobs: 1, Crashes: 1, LazyApplies: 1, Drops: 1, Horizon: 250},
+				Script: []string{"W1", "W2", "W1", "H1", "C2", "W2", "H1", "C1", "T2", "H2", "W3", "H2"}, HoldJobs: 1, Crashes: pick(0, 1), LazyApplies: 1, Drops: pick(0, 1), Horizon: 250},
 		}
 	case "c12":
 		return []*nxCfg{
@@ -144,6 +144,9 @@ func TestVerifNodex(t *testing.T) {
 		"c01": {"C01": true, "C02": true, "C03": true, "C04": true, "C11": true},
 		"c04": {"C04": true}, "c11": {"C11": true}, "c12": {"C12": true}, "c17": {"C17": true},
 	}[part]
+	if os.Getenv("VERIF_ALL_TAGS") != "" {
+		nxMonitorTags = nil // development aid: every monitor may alarm
+	}
 	defer func() {
 		for k, v := range nxSuppressed {
 			res.Extra["monitor_failures_of_other_properties:"+k] = v
